@@ -24,6 +24,7 @@ struct MockCam {
     long triggers;
     struct CameraProperties props;
     int serial;
+    long polls;
 };
 struct MockSto {
     struct Storage storage;
@@ -43,7 +44,7 @@ static const char* sto_names[MOCK_NSTO] = { "stoA", "stoB", "stoBad" };
 void mock_reset(void)
 {
     for (int i = 0; i < MOCK_NCAM; ++i) {
-        mock_cam[i] = (struct mock_cam_cfg){ .w = 4, .h = 3, .type = SampleType_u8, .trig = 0, .fail_at = -1, .start_fails = 0, .pace = 0 };
+        mock_cam[i] = (struct mock_cam_cfg){ .w = 4, .h = 3, .type = SampleType_u8, .trig = 0, .fail_at = -1, .start_fails = 0, .pace = 0, .empty_every = 0 };
         g_cam_tag[i] = 0;
     }
     for (int i = 0; i < MOCK_NSTO; ++i)
@@ -142,6 +143,12 @@ static enum DeviceStatusCode cam_get_frame(struct Camera* c, void* im, size_t* n
         g->fail_at = -1;
         printf("D cam%d#%d get_frame FAIL id=%llu\n", m->idx, m->serial, (unsigned long long)m->next_id);
         return Device_Err;
+    }
+    if (!g->trig && g->empty_every > 0 && (++m->polls % g->empty_every) == 0) {
+        /* a poll that times out: the call succeeds and reports zero bytes (the runtime cancels the write and asks again) */
+        printf("D cam%d#%d get_frame EMPTY\n", m->idx, m->serial);
+        *nbytes = 0;
+        return Device_Ok;
     }
     size_t bpp = bytes_of_type((enum SampleType)g->type);
     size_t n = (size_t)g->w * g->h * bpp;
